@@ -18,9 +18,9 @@ import (
 	"time"
 
 	"github.com/attestantio/dirk/testing/resources"
+	pb "github.com/wealdtech/eth2-signer-api/pb/v1"
 	keystorev4 "github.com/wealdtech/go-eth2-wallet-encryptor-keystorev4"
 	filesystem "github.com/wealdtech/go-eth2-wallet-store-filesystem"
-	pb "github.com/wealdtech/eth2-signer-api/pb/v1"
 	"google.golang.org/grpc"
 	"google.golang.org/grpc/credentials"
 )
@@ -40,7 +40,11 @@ type DaemonCfg struct {
 	PermissionsJSON string
 	Pruning         bool
 	NoCA            bool
-	Pop             *fsPopulation
+	// HomeConfig: no --base-dir; the configuration is $HOME/.dirk.json, the storage path is left at its default
+	// (relative: "storage"), and every incarnation is started from a working directory of its own - a daemon started by
+	// hand from a shell after the service manager had started it from somewhere else.
+	HomeConfig bool
+	Pop        *fsPopulation
 }
 
 // fsPopulation is a population whose wallets live in a filesystem store (a template directory copied per daemon).
@@ -138,20 +142,28 @@ func (d *Daemon) writeConfig() {
 	if perms == "" {
 		perms = `{"client-test01": {"Wallet 1": ["All"], "Wallet 3": ["All"]}, "client-test02": {"Wallet 2": ["All"]}, "client-test03": {"Nowhere": ["All"]}}`
 	}
+	storage := fmt.Sprintf(` "storage-path": "%s/storage",
+`, base)
+	if d.cfg.HomeConfig {
+		storage = ""
+	}
 	text := fmt.Sprintf(`{
  "log-level": "info",
  "log-file": "%[1]s/dirk.log",
  "server": {"id": 1, "name": "signer-test01", "listen-address": "%[2]s", "rules": {"admin-ips": %[3]s, "periodic-pruning": %[4]v}},
  "certificates": {"server-cert": "file://%[1]s/certs/server.crt", "server-key": "file://%[1]s/certs/server.key"%[5]s},
- "storage-path": "%[1]s/storage",
- "stores": [{"name": "Local", "type": "filesystem", "location": "%[1]s/wallets"}],
+%[8]s "stores": [{"name": "Local", "type": "filesystem", "location": "%[1]s/wallets"}],
  "peers": {"1": "signer-test01:%[6]d"},
  "unlocker": {"wallet-passphrases": ["pass"], "account-passphrases": ["pass"]},
  "process": {"generation-passphrase": "pass"},
  "permissions": %[7]s
 }
-`, base, d.Addr, admin, d.cfg.Pruning, ca, d.port, perms)
-	if err := os.WriteFile(filepath.Join(base, "dirk.json"), []byte(text), 0o600); err != nil {
+`, base, d.Addr, admin, d.cfg.Pruning, ca, d.port, perms, storage)
+	name := "dirk.json"
+	if d.cfg.HomeConfig {
+		name = ".dirk.json"
+	}
+	if err := os.WriteFile(filepath.Join(base, name), []byte(text), 0o600); err != nil {
 		d.t.Fatalf("config: %v", err)
 	}
 }
@@ -168,6 +180,14 @@ func (d *Daemon) Start(extraEnv ...string) error {
 			d.writeConfig() // the port was taken by somebody else in the meantime
 		}
 		cmd := exec.Command(dirkBinary(d.t), "--base-dir", d.Base)
+		cmd.Dir = d.Base
+		if d.cfg.HomeConfig {
+			cmd = exec.Command(dirkBinary(d.t))
+			cmd.Dir = filepath.Join(d.Base, fmt.Sprintf("started-from-%d", d.Incarnation))
+			if err := os.MkdirAll(cmd.Dir, 0o700); err != nil {
+				return err
+			}
+		}
 		env := []string{"HOME=" + d.Base, "PATH=/usr/bin:/bin"}
 		for _, kv := range os.Environ() {
 			if strings.HasPrefix(kv, "SSL_CERT_") {
@@ -175,7 +195,6 @@ func (d *Daemon) Start(extraEnv ...string) error {
 			}
 		}
 		cmd.Env = append(env, extraEnv...)
-		cmd.Dir = d.Base
 		out, err := os.OpenFile(filepath.Join(d.Base, "dirk.out"), os.O_CREATE|os.O_WRONLY|os.O_APPEND, 0o600)
 		if err != nil {
 			return err
